@@ -38,7 +38,7 @@ type C08Case struct {
 	Reqs []SUR  `json:"reqs"`
 }
 
-var costStrings = []string{"1", "2", "7", "10", "999", "4294967295", "0", "0.5", "1.5", "0.25", "2.50", "10.0", "", "abc", "1.2.3", "-1", " 5", "1e3", "00", "0.0"}
+var costStrings = []string{"1", "2", "7", "10", "999", "4294967295", "0", "0.5", "1.5", "0.25", "2.50", "10.0", "", "abc", "1.2.3", "-1", " 5", "1e3", "00", "0.0", " ", "\t", "  \n", "5 ", " 5 "}
 
 // genCost builds a stored unit-cost string: the fixed list above, or a decimal numeral constructed from an
 // integer part (with or without leading zeros), an optional point and 0-15 fraction digits (all zero = an
